@@ -75,6 +75,23 @@ def check_far(m, zen, azi):
     return viol
 
 
+def check_far_reuse(m):
+    """the same Angle objects, changed between two requests on one model: the second table follows the new request"""
+    viol = []
+    zen, azi = Angle(0, 10, 3), Angle(0, 90, 2)
+    m.compute_far_field(zen, azi)
+    zen.initial, zen.number = 30, 4
+    azi.inc = 45
+    m.compute_far_field(zen, azi)
+    rows = [l.split() for l in m.far_field.db_as_mininec().split('\n') if l.strip()]
+    exp = [(30 + 10 * iz, 45 * ia) for ia in range(2) for iz in range(4)]
+    got = [(float(r[0]), float(r[1])) for r in rows]
+    if got != [(float(a), float(b)) for a, b in exp]:
+        viol.append({'id': 'far-field-table-of-a-second-request-keeps-the-first-requests-angles', 'expected': exp[:4], 'observed': got[:4],
+                     'input': 'Angle objects changed in place between two compute_far_field calls'})
+    return viol
+
+
 def numpy_axioms():
     """cross-check of the trusted index arithmetic (meshgrid ij + flatten + flip; meshgrid xy + flat)"""
     bad = []
@@ -143,6 +160,8 @@ def main():
         out['cases'] += 1
         out['nontrivial'] += 1
     out['samples'].append({'zen': zen, 'azi': azi})
+    out['violations'].extend(check_far_reuse(m))
+    out['cases'] += 1
     print(json.dumps(out, default=str))
 
 
